@@ -110,6 +110,15 @@ fn state_for(val: u32) -> HashMap<Cow<'static, str>, Value> {
         return m;
     }
     m.insert("#".into(), json!(val));
+    if val % 97 == 13 {
+        // a deeply nested document (130 levels of arrays): "any JSON" has no depth limit
+        let mut v = json!(val);
+        for _ in 0..130 {
+            v = Value::Array(vec![v]);
+        }
+        m.insert("deep".into(), v);
+        return m;
+    }
     match val % 7 {
         0 => {}
         1 => {
@@ -124,6 +133,18 @@ fn state_for(val: u32) -> HashMap<Cow<'static, str>, Value> {
         }
         4 => {
             m.insert("nums".into(), json!([i64::MAX, i64::MIN, u64::MAX, 1.7976931348623157e308, -0.0, 1e-300]));
+            // everyday doubles with a full mantissa (prices, coordinates, timestamps): a store that
+            // re-parses its JSON text with a fast-but-inexact float parser returns them one ULP off
+            let mut x = (val as u64).wrapping_mul(0x9E37_79B9_7F4A_7C15) ^ 0xD1B5_4A32_D192_ED03;
+            let floats: Vec<f64> = (0..6)
+                .map(|_| {
+                    x ^= x >> 30;
+                    x = x.wrapping_mul(0xBF58_476D_1CE4_E5B9);
+                    x ^= x >> 27;
+                    ((x >> 11) as f64 / (1u64 << 53) as f64) * 1000.0
+                })
+                .collect();
+            m.insert("floats".into(), json!(floats));
         }
         5 => {
             m.insert("k1".into(), json!(null));
@@ -855,7 +876,11 @@ pub fn execute(script: &Script, tape: &mut Tape, keep_log: bool) -> RunOut {
             if let Ret::Other(m) = &e.out {
                 others += 1;
                 if others > faults_fired {
-                    violations.push(viol("no-spurious-error", format!("{} {} -> Other", script.backend, op_kind(&e.op)), format!("phase{pi}: {} failed with {m}", op_str(&e.op))));
+                    {
+                        // name the one cause that is a recorded finding, so that any other spurious error keeps its own signature
+                        let cause = if m.contains("recursion limit exceeded") { " (recursion limit exceeded: state nested deeper than 128 levels)" } else { "" };
+                        violations.push(viol("no-spurious-error", format!("{} {} -> Other{cause}", script.backend, op_kind(&e.op)), format!("phase{pi}: {} failed with {m}", op_str(&e.op))));
+                    }
                 } else {
                     c("op_failed_with_other_after_statement_fault");
                 }
